@@ -183,6 +183,13 @@ var baseTable = FunctionTable{
 		0,
 		false,
 	},
+	"convertsToDateTime": Function{
+		impl.ConvertsToDateTime,
+		0,
+		0,
+		false,
+	},
+	// Deprecated: misspelt name kept for existing callers.
 	"convertToDateTime": Function{
 		impl.ConvertsToDateTime,
 		0,
